@@ -477,6 +477,10 @@ def run(chk):
     uouts = core.run_node(ureqs) if ureqs else []
     for (i, f, D1, how), o in zip(umeta, uouts):
         src, st = tpls[i]
+        if "error" in o and re.search(r"TypeError: \w+\.prototype\.\w+ called on null or undefined", str(o.get("error"))) and "()" in src:
+            # (an event-handler expression that calls an inherited method of a primitive as a plain function: JavaScript throws too)
+            chk.bump("oracle:builtin-method-called-as-plain-function")
+            continue
         if "error" in o or len(o.get("snapshots", [])) != 2:
             nbad += 1
             if nbad <= 6:
